@@ -255,6 +255,16 @@ def reach(env, sit, peer_mode):
                                ctx.keylog.secrets.get(("ENCRYPT", "HANDSHAKE")))
     if ctx.state.name != want_state:
         raise RuntimeError("situation %s: expected %s, reached %s" % (name, want_state, ctx.state.name))
+    if not want_state.endswith("POST_HANDSHAKE"):
+        # on the way to a state before completion (legal messages only, honest or adversary peer, with and
+        # without resumption / accepted 0-RTT): no 1-RTT key of the client, no 1-RTT receive key of the server
+        for direction, epoch, _ in ctx.keylog.events:
+            if epoch == "ONE_RTT" and (role == "client" or direction == "DECRYPT"):
+                raise Violation("c11.key-release", "%s ONE_RTT %s before completion in %s" % (
+                    role, direction, want_state),
+                    "situation %s (%s peer): the %s released its 1-RTT %s key although it is only in %s: the "
+                    "peer's Finished has not been received, let alone verified" % (
+                        name, peer_mode, role, direction, want_state))
     H.drain(bufs)
     return ctx, bufs, party
 
@@ -357,7 +367,12 @@ SERVER_ALPHABET = ["EE", "CR", "Cert", "CV", "Fin"]
 CLIENT_ALPHABET = ["Fin", "Cert", "CV", "CertEmpty"]
 CV_TAMPERS = ["badsig", "stale", "wrongctx", "wrongkey", "wrongscheme"]
 FIN_TAMPERS = ["badmac", "stale", "wrongkey", "short"]
-PSK_MODES = ["none", "select", "decline", "pretend-unoffered", "pretend-wrong-secret"]
+# none: no ticket.  select: ticket offered, adversary knows the resumption secret and selects it.
+# decline: offered, not selected.  pretend-unoffered: pre_shared_key in ServerHello although none was offered.
+# pretend-wrong-secret: offered and "selected" by an adversary that does not know the secret (derives from an
+# all-zero PSK, same cipher suite as the ticket).  select-other-suite: offered and "selected" with a cipher suite
+# that the client offered but that is not the ticket's, keys from the ordinary (EC)DHE-only schedule.
+PSK_MODES = ["none", "select", "decline", "pretend-unoffered", "pretend-wrong-secret", "select-other-suite"]
 MAX_LEN = 6
 QUICK_FULL_LEN = 4
 QUICK_SAMPLE = 150
@@ -410,7 +425,7 @@ def run_skip_attacks(env, ch, tier, log, stats):
     tls = H.tls_mod()
     cfg = env.cfg
     mode = cfg["psk_mode"]
-    offered = mode in ("select", "decline", "pretend-wrong-secret")
+    offered = mode in ("select", "decline", "pretend-wrong-secret", "select-other-suite")
     ticket = None
     if offered:
         ticket, _ = env.ticket(cfg["early"])
@@ -430,16 +445,23 @@ def run_skip_attacks(env, ch, tier, log, stats):
         elif mode == "pretend-wrong-secret":
             wrong = dict(psk_of(ticket), secret=bytes(len(ticket.resumption_secret)))
             adv = A.AdversaryServer(rng, cfg["cred"], group=cfg["group"], psk=wrong, psk_mode="pretend")
+        elif mode == "select-other-suite":
+            offered_suites = cfg["client_suites"] or [0x1302, 0x1301, 0x1303]
+            other = next((x for x in offered_suites if x != int(ticket.cipher_suite)), None)
+            if other is None:  # single-suite client: degenerate to the same suite with an unknown (zero) PSK
+                other = int(ticket.cipher_suite)
+            adv = A.AdversaryServer(rng, cfg["cred"], group=cfg["group"], cipher_suite=other, psk_mode="pretend")
         elif mode == "pretend-unoffered":
             adv = A.AdversaryServer(rng, cfg["cred"], group=cfg["group"], psk_mode="pretend")
         else:
             adv = A.AdversaryServer(rng, cfg["cred"], group=cfg["group"], psk_mode="none")
         adv.alpn = cfg["alpn"] and cfg["alpn"][0]
+        adv.ee_early_data = cfg["ee_early"]
         sh = adv.accept(hello)
         if mode == "select" and not adv.binder_ok:
             raise RuntimeError("reference binder computation disagrees with the real client's binder")
         name = describe(seq, tampers)
-        legal = not tampers and mode not in ("pretend-unoffered", "pretend-wrong-secret")
+        legal = not tampers and mode in ("none", "select", "decline")
         fed = []
         outcome = "stalled"
         stats["sequences"] += 1
@@ -459,15 +481,17 @@ def run_skip_attacks(env, ch, tier, log, stats):
         except Exception as e:  # not an alert: other properties judge that; here it is "no completion"
             outcome = "EXC:%s@%d" % (type(e).__name__, len(fed))
             stats["exception:" + type(e).__name__] += 1
-        log("%s %s -> %s" % (mode, name, outcome))
+        log("%s%s %s -> %s" % (mode, "+ee-early" if cfg["ee_early"] else "", name, outcome))
         prefix_legal = legal and server_flight_legal(tuple(fed), really_selected) and not any(
             i in tampers for i in range(len(fed)))
         if client.state == tls.State.CLIENT_POST_HANDSHAKE and not prefix_legal:
-            raise Violation("c11.skip", "server-flight psk=%s seq=%s" % (mode, describe(tuple(fed), tampers)),
-                            "the real client reached CLIENT_POST_HANDSHAKE after the key-holding adversary "
-                            "server sent ServerHello followed by [%s] (psk mode: %s, certificate %s); only "
-                            "EE [CR] Cert CV Fin, or EE Fin with an offered and selected PSK, may complete" % (
-                                describe(tuple(fed), tampers), mode, cfg["cred"]))
+            raise Violation("c11.skip", "server-flight psk=%s%s seq=%s" % (
+                mode, " ee-early-data" if cfg["ee_early"] else "", describe(tuple(fed), tampers)),
+                "the real client reached CLIENT_POST_HANDSHAKE after the key-holding adversary "
+                "server sent ServerHello followed by [%s] (psk mode: %s, early_data extension in "
+                "EncryptedExtensions: %s, certificate %s, client suites %s); only EE [CR] Cert CV Fin, or EE Fin "
+                "with an offered PSK selected by a server that knows it, may complete" % (
+                    describe(tuple(fed), tampers), mode, cfg["ee_early"], cfg["cred"], cfg["client_suites"]))
         # keys: 1-RTT only after the server's Finished verified, i.e. only on a legal complete flight
         for direction, epoch, marker in client.keylog.events:
             if epoch == "ONE_RTT" and not (prefix_legal and marker == tuple(fed)):
@@ -500,10 +524,11 @@ def run_client_flight(env, ch, tier, log, stats):
     tls = H.tls_mod()
     cfg = env.cfg
     requested = cfg["request_client_cert"]
-    use_psk = cfg["psk_mode"] == "select" and not requested
+    use_psk = cfg["flight_mode"] in ("psk", "psk-early")
+    early = cfg["flight_mode"] == "psk-early"  # 0-RTT offered by the adversary client and accepted by the server
     ticket = store = None
     if use_psk:
-        ticket, store = env.ticket(cfg["early"])
+        ticket, store = env.ticket(early)
     shapes = [("Cert", "CV", "Fin"), ("CertEmpty", "Fin")] if requested else [("Fin",)]
     cases = plan_sequences(ch, tier, CLIENT_ALPHABET, shapes)
     legal_completed = 0
@@ -515,6 +540,8 @@ def run_client_flight(env, ch, tier, log, stats):
         psk = psk_of(ticket) if use_psk else None
         adv = A.AdversaryClient(rng, groups=[cfg["group"]], alpn=cfg["alpn"], psk=psk,
                                 cipher_suites=[psk["suite"]] if psk else None)
+        if early:
+            adv.extensions.append((M.EXT_EARLY_DATA, b""))
         name = describe(seq, tampers)
         fed = []
         outcome = "stalled"
@@ -522,6 +549,8 @@ def run_client_flight(env, ch, tier, log, stats):
         server.keylog.marker = ("CH",)
         server.handle_message(adv.client_hello(), bufs)
         adv.receive(b"".join(H.drain(bufs)))
+        if server.early_data_accepted != early:
+            raise RuntimeError("self-check: early data accepted=%s, wanted %s" % (server.early_data_accepted, early))
         if not adv.server_finished_ok or adv.psk_selected != use_psk or adv.certificate_requested != requested:
             raise RuntimeError("reference key schedule disagrees with the real server's flight")
         try:
@@ -538,7 +567,7 @@ def run_client_flight(env, ch, tier, log, stats):
         except Exception as e:
             outcome = "EXC:%s@%d" % (type(e).__name__, len(fed))
             stats["exception:" + type(e).__name__] += 1
-        log("%s %s -> %s" % ("cr" if requested else "psk" if use_psk else "plain", name, outcome))
+        log("%s %s -> %s" % (cfg["flight_mode"], name, outcome))
         prefix_legal = client_flight_legal(tuple(fed), requested) and not any(i in tampers for i in range(len(fed)))
         if server.state == tls.State.SERVER_POST_HANDSHAKE and not prefix_legal:
             raise Violation("c11.skip", "client-flight cr=%s psk=%s seq=%s" % (
@@ -549,10 +578,12 @@ def run_client_flight(env, ch, tier, log, stats):
                     "Cert CV Fin or an empty Certificate followed by Fin" if requested else "Fin"))
         for direction, epoch, marker in server.keylog.events:
             if epoch == "ONE_RTT" and direction == "DECRYPT" and not (prefix_legal and marker == tuple(fed)):
-                raise Violation("c11.key-release", "server ONE_RTT DECRYPT after cr=%s %s" % (
-                    requested, describe(marker, tampers)),
-                    "the server released its 1-RTT receive key while processing message %d of the client flight "
-                    "[%s]: no verified client Finished precedes it" % (len(marker), describe(marker, tampers)))
+                raise Violation("c11.key-release", "server ONE_RTT DECRYPT mode=%s after %s" % (
+                    cfg["flight_mode"], describe(marker, tampers)),
+                    "the server released its 1-RTT receive key while processing %s (client flight fed: [%s], mode "
+                    "%s): no verified client Finished precedes it" % (
+                        "the ClientHello" if marker == ("CH",) else "message %d of the client flight" % len(marker),
+                        describe(tuple(fed), tampers), cfg["flight_mode"]))
         if server.state == tls.State.SERVER_POST_HANDSHAKE:
             legal_completed += 1
             if server.keylog.secrets[("DECRYPT", "ONE_RTT")] != adv.client_ap_secret:
@@ -579,10 +610,12 @@ def draw_config(ch, variant):
         "cadata": bool(c.choose(2)),
         "real_peer": bool(c.choose(2)),
         "client_has_cert": bool(c.choose(2)),
-        "psk_mode": PSK_MODES[c.weighted([3, 3, 2, 1, 1])],
-        "early": bool(c.choose(2)),
-        "request_client_cert": bool(c.choose(2)),
+        "psk_mode": PSK_MODES[c.weighted([3, 3, 2, 1, 1, 2])],
+        "early": bool(c.choose(2)),       # ticket carries max_early_data -> the real client offers 0-RTT
+        "ee_early": bool(c.choose(2)),    # adversary server puts early_data into EncryptedExtensions
+        "flight_mode": ["plain", "cr", "psk", "psk-early"][c.choose(4)],
     }
+    cfg["request_client_cert"] = cfg["flight_mode"] == "cr"
     if variant == "client_flight":
         cfg["server_suites"] = cfg["client_suites"]
         cfg["client_suites"] = None
